@@ -447,6 +447,21 @@ func runC06(c *Ctx, w *World, r *Report) {
 		if !okCond && badV == "" {
 			badV = "the scan does not test buf[i] against 0"
 		}
+		// the scan examines every byte down to index 0: at the load of buf[i] the index is known to be >= 0 exactly
+		// (i > 0 leaves byte 0 unexamined: an all-NUL field, i.e. the empty version, comes back as "\x00")
+		eachInstr(vs, func(ins ssa.Instruction) {
+			ia, ok := ins.(*ssa.IndexAddr)
+			if !ok || ia.X != ssa.Value(vs.Params[0]) {
+				return
+			}
+			if _, isPhi := stripConv(ia.Index).(*ssa.Phi); !isPhi {
+				return
+			}
+			bd := fav.BoundsAt(ia.Block(), fav.Lin(ia.Index))
+			if badV == "" && (!bd.HasLo || bd.Lo != 0) {
+				badV = fmt.Sprintf("the scan examines buf[i] only for i in %s: it must reach index 0 (and not go below)", bd)
+			}
+		})
 		r.Check(badV == "" && nret > 0, "R-VERSION", "pbcmpl.verStr", w.Pos(vs.Pos()), badV, "string(buf[:i+1]), i scanning down from len(buf)-1 while buf[i]==0")
 	}
 	// ---- R-EXACT
@@ -485,6 +500,8 @@ func runC06(c *Ctx, w *World, r *Report) {
 		r.Check(bad == "", "R-EXACT", "pbcmpl.Unmarshal|body-length", w.Pos(fn.Pos()), bad, "body read length = GetBodySize()")
 	}
 	reportSuccessViaDecode(w, r, fns["pbcmpl.Unmarshal"])
+	reportMsgFinal(w, r, fns["pbcmpl.Unmarshal"])
+	reportWriteOrder(w, r, fns["pbcmpl.Marshal"])
 	// shared with C07 (agreement of the size figures needs the counts)
 	ReportCount(w, r, "pbcmpl.Marshal", 0, isParamStream(fns["pbcmpl.Marshal"], 0))
 	ReportCount(w, r, "pbcmpl.Unmarshal", 0, isParamStream(fns["pbcmpl.Unmarshal"], 0))
